@@ -13,7 +13,8 @@ EXTENDS Integers, Sequences, FiniteSets, TLC, Json
 
 CONSTANTS Dev,
           Files,      \* set of [rel: path components below the input directory, stem, ext (".cmake"/".CMAKE")]
-          Seps, PrefixSrcs, Spellings, Modes, ModDocs, HeaderLists
+          Seps, PrefixSrcs, Spellings, Modes, ModDocs, HeaderLists,
+          Befores     \* what was given earlier on the same command line: "none" | "dir" | "file"
 
 None == "<none>"
 VARIABLES run,     \* the run descriptor chosen in Init
@@ -27,17 +28,20 @@ Join(path) == LET F[j \in 0..Len(path)] == IF j = 0 THEN <<>> ELSE IF j = 1 THEN
 
 Init ==
   /\ \E f \in Files, sep \in Seps, ps \in PrefixSrcs, sp \in Spellings, mode \in Modes, md \in ModDocs,
-        et \in BOOLEAN, em \in BOOLEAN, h \in HeaderLists, nextdoc \in BOOLEAN :
+        et \in BOOLEAN, em \in BOOLEAN, h \in HeaderLists, nextdoc \in BOOLEAN, bf \in Befores :
         /\ (mode = "single" => sp = "name")       \* a lone file is spelled by its path
         /\ run = [file |-> f, sep |-> sep, prefixsrc |-> ps, spelling |-> sp, mode |-> mode, moddoc |-> md,
-                  ext_titles |-> et, ext_modules |-> em, headers |-> h, nextdoc |-> nextdoc]
+                  ext_titles |-> et, ext_modules |-> em, headers |-> h, nextdoc |-> nextdoc, before |-> bf]
   /\ pc = "main" /\ prefix = None /\ title = <<>> /\ modname = <<>> /\ page = [title |-> <<>>]
 
 \* document(): prefix = configured prefix, else (directory input) the last element of the input path
-\* as it was spelled on the command line (D_PrefixFromSpelling), ideally the directory's name
+\* as it was spelled on the command line (D_PrefixFromSpelling), ideally the directory's name.
+\* main() hands every input of the command line its own copy of the settings: what an earlier input did to its
+\* copy (the default prefix of a directory) is not seen by a later one (D_SettingsSharedAcrossInputs: it is)
 Main ==
   /\ pc = "main"
   /\ prefix' = IF run.prefixsrc # "absent" THEN "PFX"
+               ELSE IF "D_SettingsSharedAcrossInputs" \in Dev /\ run.before = "dir" THEN "OTHERDIR"
                ELSE IF run.mode = "single" THEN None
                ELSE IF "D_PrefixFromSpelling" \in Dev /\ run.spelling \in {"dot"} THEN "."
                ELSE "DIRNAME"
